@@ -79,9 +79,16 @@ def stepOf (solver : String) (f : Rate K) (dt : K) (maxiter : Nat) (maxerror α 
   | "crank-nicolson" => .ok fun s t => (cnStep α f maxiter maxerror dt s.1 t).map (fun r => (r.1, r.2 :: s.2))
   | _ => .error s!"unknown solver {solver}"
 
-def segJson (C : Codec K) (t : K) (steps : Nat) (us : List K) (iters : List Nat) : Json :=
+def segJson (C : Codec K) (t : K) (steps : Nat) (us : List K) (iters : List Nat) (times : List K := []) : Json :=
   Json.mkObj [("t", jQ (approxQ (C.re t))), ("steps", toJson steps), ("state", Json.arr (us.map C.enc).toArray),
-    ("iters", toJson iters)]
+    ("iters", toJson iters), ("times", Json.arr (times.map (fun x => jQ (approxQ (C.re x)))).toArray)]
+
+/-- the stage times of one step of a named solver (`eulerTimes`, `rk4Times rk4Tab`, `implicitTimes`) -/
+def stageOf (solver : String) : K → K → List K :=
+  match solver with
+  | "euler" => eulerTimes
+  | "runge-kutta" => rk4Times rk4Tab
+  | _ => implicitTimes
 
 /-- successive stepper calls on the same stepper object -/
 def runFixed (C : Codec K) (j : Json) : Except String Json := do
@@ -109,7 +116,9 @@ def runFixed (C : Codec K) (j : Json) : Except String Json := do
         match ab2Stepper T f dt (C.ofQ ts) (C.ofQ te) st with
         | none => err := Json.str "convergence"; break
         | some (st', t) =>
-          out := out.push (segJson C t (stepCount dt (C.ofQ ts) (C.ofQ te)) st'.us [])
+          out := out.push (segJson C t (stepCount dt (C.ofQ ts) (C.ofQ te)) st'.us []
+            ((match st.prev with | none => [C.ofQ ts] | some _ => [])
+              ++ callTimes (ab2Times T) dt (C.ofQ ts) (stepCount dt (C.ofQ ts) (C.ofQ te))))
           st := st'
       | _ => throw "segment must be [t_start, t_end]"
   else
@@ -121,7 +130,8 @@ def runFixed (C : Codec K) (j : Json) : Except String Json := do
         match fixedStepper step dt (C.ofQ ts) (C.ofQ te) (us, []) with
         | none => err := Json.str "convergence"; break
         | some ((us', its), t) =>
-          out := out.push (segJson C t (stepCount dt (C.ofQ ts) (C.ofQ te)) us' its.reverse)
+          out := out.push (segJson C t (stepCount dt (C.ofQ ts) (C.ofQ te)) us' its.reverse
+            (callTimes (stageOf solver) dt (C.ofQ ts) (stepCount dt (C.ofQ ts) (C.ofQ te))))
           us := us'
       | _ => throw "segment must be [t_start, t_end]"
   pure (Json.mkObj [("segments", Json.arr out), ("error", err)])
